@@ -176,6 +176,10 @@ def _body(s) -> str:
     return s.replace("\r\n", "\n").rstrip("\n") if isinstance(s, str) else repr(s)
 
 
+def _mboxrd_escaped(b: bytes) -> bytes:
+    return b"\n".join((b">" + ln) if G._FROM_ESC.match(ln) else ln for ln in b.split(b"\n"))
+
+
 def _eol(b: bytes) -> bytes:
     return b.replace(b"\r\n", b"\n")
 
@@ -284,6 +288,8 @@ def compare_message(t: dict, o: dict, carrier: str) -> list[tuple[str, str, str]
                 gb = core.unb64(g["head"])
                 if textual and g["sha_eol"] == core.sha(_eol(w["data"])):
                     pass                  # line terminator of a 7bit/8bit text part is transport
+                elif carrier == "mbox" and w["cte"] in ("7bit", "8bit", "quoted-printable") and g["sha_eol"] == core.sha(_eol(_mboxrd_escaped(w["data"]))):
+                    pass                  # as for bodies: the '>' the harness's own mboxrd writer put before From lines may be kept (documented)
                 else:
                     d.append((f"attachment-{w['kind']}", "bytes-differ", f"{w['filename']} cte={w['cte']}: got {g['len']}B head={gb[:32]!r} want {len(w['data'])}B head={w['data'][:32]!r}"))
             if g.get("pos") not in (0, None):
@@ -457,7 +463,7 @@ KNOWN_SYMPTOMS = {
     # risky feature -> {(carrier, component, symptom)} that the feature is known to cause
     "mbox-attachment": {("mbox", "attachment", "attachments-not-returned")},
     "nested-rfc822": {("eml", "body-plain", "foreign-text-added"), ("mbox", "body-plain", "foreign-text-added"),
-                      ("eml", "attachment-eml", "bytes-differ")},
+                      ("eml", "attachment-eml", "bytes-differ"), ("mbox", "attachment-eml", "bytes-differ")},
     "fold-at-encoded-word": {("eml", "subject", "blank-between-words-lost"), ("mbox", "subject", "blank-between-words-lost")},
     "date-second-60": {("mbox", "extraction", "raised-ValueError")},
 }
